@@ -41,11 +41,27 @@ pub struct Program {
     pub spaces: bool,
     /// send the same commands in one WebSocket frame instead (only execution is judged there)
     pub websocket: bool,
+    /// HTTP requests of other clients (against a database set of their own) served before the judged one:
+    /// whatever they leave behind in a worker must not show in the judged request's entries
+    #[serde(default)]
+    pub earlier_requests: Vec<Vec<Cmd>>,
 }
 
 const KEYS: [&str; 4] = ["ka", "kb", "$$sec", "txt"];
 
 fn gen(rng: &mut Rng, ws: bool) -> Program {
+    let mut p = gen_one(rng, ws);
+    if rng.chance(1, 2) {
+        let k = rng.range(1, 4) as usize;
+        for _ in 0..k {
+            let q = gen_one(rng, false);
+            p.earlier_requests.push(q.cmds);
+        }
+    }
+    p
+}
+
+fn gen_one(rng: &mut Rng, ws: bool) -> Program {
     let n = rng.range(1, 6) as usize;
     let mut cmds = Vec::new();
     let mut uniq = 0;
@@ -72,7 +88,7 @@ fn gen(rng: &mut Rng, ws: bool) -> Program {
             _ => Cmd::Blank,
         });
     }
-    Program { cmds, trailing_semicolon: rng.chance(1, 2), spaces: rng.chance(1, 3), websocket: ws }
+    Program { cmds, trailing_semicolon: rng.chance(1, 2), spaces: rng.chance(1, 3), websocket: ws, earlier_requests: vec![] }
 }
 
 /// render against the database set with the given prefix ("h" = HTTP side, "r" = reference side)
@@ -158,7 +174,7 @@ fn execute(prog: Program) -> Outcome {
         Some(d) => d,
         None => return out,
     };
-    if !prepare(&dbs, "h") || !prepare(&dbs, "r") {
+    if !prepare(&dbs, "h") || !prepare(&dbs, "r") || (!prog.earlier_requests.is_empty() && !prepare(&dbs, "p")) {
         return out;
     }
     let (http, ws) = (w.nodes[0].http.clone(), w.nodes[0].ws.clone());
@@ -167,6 +183,14 @@ fn execute(prog: Program) -> Outcome {
         return out;
     }
     out.setup = Ok(());
+    // other clients' requests, served by the same workers before the judged one
+    for cmds in prog.earlier_requests.iter() {
+        let body = cmds.iter().map(|c| render(c, "p")).collect::<Vec<_>>().join(";");
+        if http_request(&http, &body, 3_000).is_none() {
+            out.violations.push(Violation::new("no-reply", "http".to_string(), format!("earlier body {:?} got no reply", body)));
+            return out;
+        }
+    }
     // reference: every command alone, in order, on a session of its own kind (fresh client), mirrored databases
     let mut reference = Session::new(&dbs);
     let mut expected: Vec<(String, &'static str)> = Vec::new();
@@ -313,7 +337,7 @@ impl Property for C20 {
         (250_000, 5_000_000)
     }
     fn rule(&self) -> &'static str {
-        "bodies of 1-6 statements from {auth ok/bad, use-db ok / bad token / user token with read-only k* permission, get, get-safe, set, set-safe fresh/stale, remove, increment ok/non-numeric, keys, watch (later writes of the same request notify its own session), create-db, blank}, over keys incl. a $$ key, with or without trailing ';' and spaces around ';', sent as one HTTP request to the real http_ops worker loop (tiny_http facade) or as one WebSocket frame; the reference is the same command list executed one command at a time by a fresh direct session on a mirrored database set: entry i must equal what command i alone produces (first message, error text, or 'empty'), the entry count must equal the number of non-blank statements, both database sets must end equal (executed once each, in order), and afterwards no connection or watcher of the request's session is left. Non-trivial: a refused command precedes a successful one. distinct = distinct programs."
+        "bodies of 1-6 statements from {auth ok/bad, use-db ok / bad token / user token with read-only k* permission, get, get-safe, set, set-safe fresh/stale, remove, increment ok/non-numeric, keys, watch (later writes of the same request notify its own session), create-db, blank}, over keys incl. a $$ key, with or without trailing ';' and spaces around ';' (in half of the cases after 1-4 HTTP requests of other clients against another database set, served by the same four workers), sent as one HTTP request to the real http_ops worker loop (tiny_http facade) or as one WebSocket frame; the reference is the same command list executed one command at a time by a fresh direct session on a mirrored database set: entry i must equal what command i alone produces (first message, error text, or 'empty'), the entry count must equal the number of non-blank statements, both database sets must end equal (executed once each, in order), and afterwards no connection or watcher of the request's session is left. Non-trivial: a refused command precedes a successful one. distinct = distinct programs."
     }
     fn assumptions(&self) -> Vec<String> {
         vec![
@@ -370,6 +394,23 @@ impl Property for C20 {
             Err(_) => return vec![],
         };
         let mut out = Vec::new();
+        if !p.earlier_requests.is_empty() {
+            let mut q = p.clone();
+            q.earlier_requests.clear();
+            out.push(serde_json::to_value(&q).unwrap());
+            for i in 0..p.earlier_requests.len() {
+                let mut q = p.clone();
+                q.earlier_requests.remove(i);
+                out.push(serde_json::to_value(&q).unwrap());
+                for j in 0..p.earlier_requests[i].len() {
+                    if p.earlier_requests[i].len() > 1 {
+                        let mut q = p.clone();
+                        q.earlier_requests[i].remove(j);
+                        out.push(serde_json::to_value(&q).unwrap());
+                    }
+                }
+            }
+        }
         for i in 0..p.cmds.len() {
             if p.cmds.len() > 1 {
                 let mut q = p.clone();
